@@ -35,8 +35,9 @@ pub(super) enum EndStreamAction {
     /// (or otherwise expected to terminate cleanly): the backend went away
     /// mid-response — caller must forcefully terminate with an internal error.
     ForwardUnterminated,
-    /// No response is available and the request was already partially consumed,
-    /// so retrying is unsafe — send the given default status (502 Bad Gateway).
+    /// No response is available, none was forwarded yet, and the request was
+    /// already partially consumed, so retrying is unsafe — send the given default
+    /// status (502 Bad Gateway).
     SendDefault(u16),
     /// No response is available and the request is untouched, so the caller may
     /// link the stream to a fresh backend and retry.
@@ -57,6 +58,11 @@ pub(super) fn end_stream_decision(stream: &Stream) -> EndStreamAction {
         } else {
             EndStreamAction::ForwardUnterminated
         }
+    } else if stream.back.consumed {
+        // Part of a response already left for the client (a head was forwarded
+        // and the body then failed to parse): a default answer written now would
+        // be a second answer inside the first one. Only an abort is left.
+        EndStreamAction::ForwardUnterminated
     } else if stream.front.consumed {
         EndStreamAction::SendDefault(502)
     } else {
